@@ -145,6 +145,10 @@ def make(spec):
     if spec.get("lattice", "none") == "power":
         kap = (0.30, 0.36, 0.34)
         lattice = numpy.stack([a0 * (vols / V0) ** k for a0, k in zip((5.1, 6.3, 7.7), kap)], axis=1)
+    elif spec.get("lattice") == "nlc":
+        # negative linear compressibility along c (the axis lengthens under compression): its strain fraction is negative
+        kap = (0.62, 0.58, -0.20)
+        lattice = numpy.stack([a0 * (vols / V0) ** k for a0, k in zip((5.1, 6.3, 7.7), kap)], axis=1)
     elif spec.get("lattice") == "tab":
         xx = vols / V0
         lattice = numpy.stack([5.1 * xx ** 0.30 * (1 + 0.02 * (xx - 1) ** 2),
@@ -176,7 +180,8 @@ def static_file_text(ds, columns=None, names=None, rows=None, scale=1.0, fmt="%.
     cols = columns or list(ds["supplied"])
     nv = len(ds["vols"])
     rows = list(range(nv)) if rows is None else rows
-    L = ["V_0 N cellmass synthetic", f"{ds['vref']:.8f} {nv} {ds['cellmass']:.6f}"]
+    mass = ds.get("cellmass_text") or f"{ds['cellmass']:.6f}"
+    L = ["V_0 N cellmass synthetic", f"{ds['vref']:.8f} {nv} {mass}"]
     L.append("V " + " ".join((names[p] if names else "c%d%d" % p) for p in cols))
     for i in rows:
         L.append(f"{ds['vols'][i]:.8f} " + " ".join(fmt % (scale * ds["table"][p][i]) for p in cols))
